@@ -15,7 +15,7 @@ RULE = (
     "the host sheet; header rows/columns 0..2; header labels absent / unique / duplicated within table, sheet or document (labels "
     "with spaces and operator characters, which force quoting). Stored reference nodes, encoded the way Numbers-authored fixtures "
     "encode them: single cell, rectangle (colon tract, both single-value and begin/end-pair relative lists), row span, column span, "
-    "whole single row/column, all absolute/relative combinations, to the host table and to every other table (cross-table info "
+    "whole single row/column, all absolute/relative combinations (an axis with one fixed and one relative end is stored end-before-begin in one case of three, as a range filled upwards is), to the host table and to every other table (cross-table info "
     "carries the target's UUID read from the document). Hosts: body cells. Oracle: an independent resolver (vf/refresolve.py) "
     "parses the printed `[Sheet::][Table::]ref`, determines the candidate tables from the document's names only and must find "
     "exactly one reading, identical to the stored target: same table, same coordinates (relative = host + offset), '$' exactly on "
@@ -216,6 +216,12 @@ def references(draw, config):
             ref["abs"][2] = ref["abs"][3] = False
         if kind == "cols":
             ref["abs"][0] = ref["abs"][1] = False
+        # an axis with one fixed and one relative end may be stored with its end before its begin (a running total "A$3:A4" filled
+        # upwards becomes "A$3:A1"): the '$' marks must stay on the coordinates they were stored with
+        if kind != "cols" and ref["abs"][0] != ref["abs"][1] and draw(st.integers(0, 2)) == 0:
+            ref["r0"], ref["r1"] = ref["r1"], ref["r0"]
+        if kind != "rows" and ref["abs"][2] != ref["abs"][3] and draw(st.integers(0, 2)) == 0:
+            ref["c0"], ref["c1"] = ref["c1"], ref["c0"]
     return ref
 
 
@@ -349,6 +355,8 @@ def check_config(ctx, case):
                     ctx.nt((cfg, {k: v for k, v in ref.items()}))
                 ctx.count("kind_" + ref["kind"])
                 ctx.count("cross_table" if ref["to"] != ref["host_table"] else "same_table")
+                if ref["kind"] in ("rect", "colon", "rows", "cols") and (ref["r0"] > ref["r1"] or ref["c0"] > ref["c1"]):
+                    ctx.count("range_stored_end_first")
                 if "::" not in text and not any(ch.isdigit() for ch in text.split(":")[0].lstrip("$'")) and ref["kind"] in ("row", "col", "rows", "cols"):
                     ctx.count("printed_as_label")
                 ctx.sample({"ref": {k: v for k, v in ref.items() if k not in ("decoy_r", "decoy_c")}, "text": text}, every=53)
